@@ -144,6 +144,32 @@ def write_evidence(pid, tier, ctx, wall, violations, status, extra=None):
 
 RULES = {}
 
+# Behavioural dependencies between properties: the dependent property's check also evaluates the rules of the property whose
+# mechanism it relies on (reported as <dependent>/<rule>), so that a change which breaks, say, the ordering mechanism (C05) is
+# reported by the flush guarantee (C06) that is stated in terms of it.
+DEPENDS = {
+    "C03": ["C01", "C02"],        # exactly-once / in-order delivery rests on both queues
+    "C06": ["C05"],               # the cross-thread clause of flush_log rests on the timestamp-ordering mechanism
+    "C07": ["C03"],               # the exit drain uses the hand-over chain
+    "C08": ["C01"],               # 'delivered intact and in order' rests on the bounded queue
+}
+
+
+class Prefixed:
+    """forwards obligations of a dependency's rules under the dependent property's id"""
+
+    def __init__(self, ctx, prefix):
+        self._ctx, self._prefix = ctx, prefix
+
+    def ob(self, rule, *a, **k):
+        return self._ctx.ob(self._prefix + "/" + rule, *a, **k)
+
+    def floor(self, rule, *a, **k):
+        return self._ctx.floor(self._prefix + "/" + rule, *a, **k)
+
+    def __getattr__(self, n):
+        return getattr(self._ctx, n)
+
 
 def load_rules(pid):
     if pid not in RULES:
@@ -158,6 +184,8 @@ def run_property(pid, tier, only=None, quiet=False):
     try:
         mod = load_rules(pid)
         mod.run(ctx)
+        for dep in DEPENDS.get(pid, []):
+            load_rules(dep).run(Prefixed(ctx, pid))
         if not ctx.obligations:
             raise AnalysisBroken("no obligation was generated for %s" % pid)
     except AnalysisBroken as e:
@@ -210,7 +238,7 @@ def run_property(pid, tier, only=None, quiet=False):
         printed.add(key)
         os.makedirs(vdir, exist_ok=True)
         hid = hashlib.sha1(("%s|%s|%s" % key).encode()).hexdigest()[:10]
-        path = os.path.join(vdir, "%s-%s.json" % (o["rule"].replace(".", "_"), hid))
+        path = os.path.join(vdir, "%s-%s.json" % (o["rule"].replace(".", "_").replace("/", "-"), hid))
         with open(path, "w") as fh:
             json.dump({"property": pid, "tier": tier, **o}, fh, indent=1)
         print("  %s violated at %s in %s: %s" % (o["rule"], o["loc"], o.get("fn"), o["what"]))
